@@ -402,8 +402,53 @@ def rewire(k, wire, oscore_value=None, payload=None, code=None, extra_opts=None)
 
 # --------------------------------------------------------------------------- oracle
 
+def split_proxy_uri(uri):
+    """RFC 3986 §3 / RFC 7252 §6.4, written for the oracle: (scheme, authority, [path segments], [query parts]) of an
+    absolute URI with authority, percent-decoded; None when it has no such form"""
+    if b"://" not in uri or b"#" in uri:
+        return None
+    scheme, rest = uri.split(b"://", 1)
+    cut = min([i for i in (rest.find(b"/"), rest.find(b"?")) if i >= 0] or [len(rest)])
+    authority, tail = rest[:cut], rest[cut:]
+    path, _, query = tail.partition(b"?")
+    has_query = b"?" in tail
+
+    def pct(x):
+        out, i = bytearray(), 0
+        while i < len(x):
+            if x[i:i + 1] == b"%" and len(x) >= i + 3 and all(c in b"0123456789abcdefABCDEF" for c in x[i + 1:i + 3]):
+                out.append(int(x[i + 1:i + 3], 16))
+                i += 3
+            else:
+                out.append(x[i])
+                i += 1
+        return bytes(out)
+    segs = [] if path in (b"", b"/") else [pct(x) for x in path.split(b"/")[1:]]
+    qs = [pct(x) for x in query.split(b"&")] if has_query and query else []
+    return scheme, authority, segs, qs
+
+
+def proxy_uri_of(spec):
+    vs = [unhx(v) for n, v in spec["opts"] if n == 35]
+    return vs[0] if vs else None
+
+
+def marker_in(b):
+    i = b.find(b"M")
+    if i >= 0 and len(b) - i >= 7 and b[i + 1:i + 6].isalpha():
+        return b[i:i + 7]
+    return None
+
+
 def spec_markers(spec, inner_only=True):
     ms = []
+    pu = proxy_uri_of(spec)
+    if pu is not None and split_proxy_uri(pu) is not None:
+        # path and query of a Proxy-Uri are end-to-end data (RFC 8613 §4.1.3.3); scheme and authority are routing
+        _, _, segs, qs = split_proxy_uri(pu)
+        for x in segs + qs:
+            if marker_in(x):
+                ms.append(marker_in(x))
     for n, v in spec["opts"]:
         if inner_only and n in INNER_REMOVED:
             continue
@@ -432,12 +477,24 @@ def oracle_outer(wire, spec):
     for m in spec_markers(spec):
         if m in front:
             return f"inner data {m!r} visible in the outer message"
+    for n, v in opts:
+        if n == 35:
+            # an outer Proxy-Uri may name the next hop's target, not the resource: scheme and authority only
+            sp = split_proxy_uri(v)
+            if sp is None or sp[2] or sp[3] or b"?" in v:
+                return f"outer Proxy-Uri {v!r} carries more than scheme and authority"
     return ""
 
 
 def expected_inner(spec, is_request, outer_observe_added=None, seqno=None):
     """(code, [(num, raw)] without Observe, observe, payload) the recipient must obtain"""
     opts = [(n, unhx(v)) for n, v in spec["opts"] if not (is_request and n in INNER_REMOVED)]
+    pu = proxy_uri_of(spec) if is_request else None
+    if pu is not None and split_proxy_uri(pu) is not None:
+        # RFC 8613 §4.1.3.3: the Proxy-Uri is split; its path and query travel inside as Uri-Path / Uri-Query
+        _, _, segs, qs = split_proxy_uri(pu)
+        opts = sorted([o for o in opts if o[0] not in (11, 15)] + [(11, x) for x in segs] + [(15, x) for x in qs],
+                      key=lambda o: o[0])
     obs_in = [int.from_bytes(v, "big") for n, v in opts if n == 6]
     obs = obs_in[0] if obs_in else None
     if is_request:
@@ -1069,6 +1126,40 @@ def peer_last_number_one(k, scn, sink):
                  "roundtrip:request:last-number", nontrivial=True, tag="step:peer-last-number")
 
 
+PU_SCHEMES = [b"coap", b"coaps", b"coap+tcp", b"coaps+tcp", b"coap+ws", b"coap", b"http"]
+
+
+def proxy_uri_shapes(gen):
+    """(label, uri builder) for every shape of a Proxy-Uri: the marker sits in path and query (end-to-end data)"""
+    auths = [("name", lambda: b"px" + gen.marker().lower() + b".example"),
+             ("name-port", lambda: b"px" + gen.marker().lower() + b".example:61616"),
+             ("ipv4", lambda: b"192.0.2.7"),
+             ("ipv6", lambda: b"[2001:db8::1]"),
+             ("ipv6-port", lambda: b"[2001:db8::1]:5683")]
+    paths = [("nopath", lambda: b""), ("slash", lambda: b"/"), ("seg", lambda: b"/P" + gen.marker()),
+             ("segs", lambda: b"/a/b/P" + gen.marker()), ("emptyseg", lambda: b"//P" + gen.marker()),
+             ("pct", lambda: b"/%50" + gen.marker() + b"%2Fx")]
+    queries = [("noquery", lambda: b""), ("q", lambda: b"?Q" + gen.marker()),
+               ("qq", lambda: b"?a=b&Q" + gen.marker()), ("qslash", lambda: b"?Q" + gen.marker() + b"/with/slashes"),
+               ("qpct", lambda: b"?%51" + gen.marker() + b"=%26"), ("qempty", lambda: b"?")]
+    for an, a in auths:
+        for pn, p in paths:
+            for qn, q in queries:
+                yield f"{an}/{pn}/{qn}", (lambda sc, a=a, p=p, q=q: sc + b"://" + a() + p() + q())
+
+
+def proxy_uri_scenarios(gen, rng, env):
+    out = []
+    for i, (label, build) in enumerate(proxy_uri_shapes(gen)):
+        for scheme in (PU_SCHEMES if env.tier != "quick" else [PU_SCHEMES[i % len(PU_SCHEMES)]]):
+            s = gen.scenario(alg=(10, 13), nresp=rng.choice([0, 0, 1]), flips="none")
+            s["req"]["opts"] = sorted([o for o in s["req"]["opts"] if o[0] not in (3, 7, 39, 11, 15)] +
+                                      [[35, hx(build(scheme))]], key=lambda o: o[0])
+            s["proxy_uri_shape"] = label
+            out.append(s)
+    return out
+
+
 def make_twin(gen, scn):
     """a request that agrees with scn['req'] on the outer-visible fields only"""
     req = scn["req"]
@@ -1520,16 +1611,14 @@ def run(env, rep):
         if rng.random() < 0.6:
             s["twin"] = make_twin(gen, s)
         scns.append(s)
-    # requests with Proxy-Uri: out of model (URI splitting), oracle only
-    for _ in range(env.scale(6, 40)):
-        s = gen.scenario(nresp=0, flips="none")
-        s["req"]["opts"] = sorted(
-            [o for o in s["req"]["opts"] if o[0] not in (3, 7, 39, 11, 15)] +
-            [[35, hx(b"coap://px" + gen.marker() + b".example:61616/P" + gen.marker() + b"?Q" + gen.marker())]],
-            key=lambda o: o[0])
-        scns.append(s)
+    # requests with Proxy-Uri (sent through a forward proxy): URI splitting is out of the Lean model, oracle only -
+    # whenever protect() succeeds the outer message and the round trip are judged.  Every shape of the URI:
+    # authority x path x query in full, the scheme rotating.
+    scns += proxy_uri_scenarios(gen, rng, env)
 
     for i, scn in enumerate(scns):
+        if "proxy_uri_shape" in scn:
+            rep.count("proxy-uri:" + scn["proxy_uri_shape"].split("/", 1)[1])
         rep.count("alg-iv=%d" % scn["alg"][1])
         rep.count("idlen=%d/%d" % (len(unhx(scn["cid"])), len(unhx(scn["sid"]))))
         rep.count("idctx=" + ("none" if scn["idctx"] is None else str(len(unhx(scn["idctx"])))))
